@@ -524,7 +524,7 @@ def binding_hygiene_records(repo):
     """Per construct: bindings registered under something that is not a string; bindings of one construct registered in
     *different* regions at the same location (a join sorts alternatives by location: a tie is broken by set order);
     text searches whose search string is not the bare identifier."""
-    out = {'nonstr': [], 'ties': [], 'glued': [], 'foreign_params': [], 'spurious': [], 'n': 0}
+    out = {'nonstr': [], 'ties': [], 'glued': [], 'foreign_params': [], 'spurious': [], 'nonlocal_leak': [], 'n': 0}
     for cls, summs in summaries(repo).items():
         for s in summs:
             for ps in ok_paths(s):
@@ -532,7 +532,15 @@ def binding_hygiene_records(repo):
                 by_loc = {}
                 owners = {}
                 # bindings of identifiers that the construct reads but does not bind (`for obj.attr in xs` reads obj)
-                if cls not in DOMAIN_EXCLUDED and cls not in ('Import', 'ImportFrom'):     # every alias of an import binds
+                if getattr(s.root, 'nested_body', False):
+                    # the definition's body rebinds `nl_rebound` under nonlocal: the scope the definition stands in must not get it as
+                    # a local (unless the code first established that this scope owns the name)
+                    owns = any(t[0] == 'in' and t[1] == 'nl_rebound' and str(t[2]).endswith('CURSCOPE.locals') and v for t, v in ps.decisions)
+                    for e in ps.effects:
+                        if e[0] in ('symset_add', 'symset_update') and str(e[1]) == 'CURSCOPE.locals' and \
+                                'nl_rebound' in [str(x) for x in e[2]] and not owns:
+                            out['nonlocal_leak'].append((cls, s.variant, src(e[-1])))
+                if cls not in DOMAIN_EXCLUDED and cls not in ('Import', 'ImportFrom') and not getattr(s.root, 'nested_body', False):
                     ref = {bd['ident_path'] for bd in pyref.binders(s.root) if bd['ident_path']}
                     nested = [n.path for n in _nested_scopes(s.root)]
                     for b in ps.binds:
